@@ -35,6 +35,13 @@ interleaving theorems below speak about histories of `Set` / `Unset` / `SetLast`
 `tryUnset` operations; this obligation is what makes them cover the package. -/
 theorem all_writes_through_mutators : Facts.c13DirectStateWrites = 0 := by decide
 
+/-- …and every call of a flag mutator (`Set` / `Unset` / `trySet` / `tryUnset` on a `state` field) in
+package c2 passes a flag constant (`state…`, alone or or-ed), never a computed mask: together with
+`flags_are_distinct_low_bits` no flag operation can reach into the group half of the word, which is
+what "updating one part never alters the other" needs at the call sites (the theorems below prove it
+for flag arguments). Count regenerated from all files of the package by go/parser. -/
+theorem flag_ops_take_flag_constants : Facts.c13NonConstantFlagMasks = 0 := by decide
+
 /-- The 16 flags are 16 distinct single bits of the low half (so the high half is free for `last`). -/
 theorem flags_are_distinct_low_bits :
     allFlags = allK.map (2 ^ ·) ∧ (∀ k ∈ allK, k < 16) ∧ allK.Nodup := ⟨by decide, allK_lt, allK_nodup⟩
